@@ -280,6 +280,15 @@ def _instances(tier):
     for op, axis, inplace, rational in (('rotate', 0, False, False), ('rotate', 1, True, False), ('rotate', 2, False, True),
                                         ('rotate', 1, False, True), ('translate', None, True, False), ('scale', None, False, True)):
         out.append(dict(kind='curve4', rational=rational, op=op, axis=axis, inplace=inplace, count=0, big=False))
+    # a container that was walked only partly before (a single next(), a loop left with break)
+    for op, axis, inplace, count, rational in (('translate', None, True, 2, False), ('scale', None, False, 3, True),
+                                                ('rotate', 2, True, 3, False)):
+        out.append(dict(kind='curve3', rational=rational, op=op, axis=axis, inplace=inplace, count=count, big=False, grid='peek'))
+    # containers mixing rational and non-rational members
+    for op, axis, inplace, count, rational, kind in (('scale', None, True, 2, True, 'curve3'), ('scale', None, False, 3, False, 'curve3'),
+                                                      ('translate', None, False, 2, False, 'surface'), ('rotate', 0, True, 2, True, 'curve3'),
+                                                      ('scale', None, False, 2, True, 'volume')):
+        out.append(dict(kind=kind, rational=rational, op=op, axis=axis, inplace=inplace, count=count, big=False, mixed=True))
     # containers of 1-3 shapes
     k = 0
     for kind, counts in (('curve3', (1, 2, 3)), ('curve2', (2,)), ('surface', (1, 3)), ('volume', (2,))):
@@ -297,7 +306,7 @@ def _instances(tier):
                       'abstract.GeomdlBase.__deepcopy__', 'NURBS.Curve.ctrlpts', 'NURBS.Surface.ctrlpts',
                       'NURBS.Volume.ctrlpts', 'linalg.vector_generate'],
           quick=lambda: _instances('quick'), thorough=lambda: _instances('thorough'))
-def affine_map(ctx, kind, rational, op, axis, inplace, count, big, clamped=True, grid=False):
+def affine_map(ctx, kind, rational, op, axis, inplace, count, big, clamped=True, grid=False, mixed=False):
     """requires: valid clamped knot vectors, parameters in the domain, positive weights; any vector / factor / angle;
                  count = 0: the bare shape, count = 1..3: a container of that many shapes (different degrees and sizes)
        ensures : every shape of the result evaluates to tau(original point); weights, degrees, sizes, knot vectors
@@ -307,7 +316,9 @@ def affine_map(ctx, kind, rational, op, axis, inplace, count, big, clamped=True,
     members = []
     for i in range(max(count, 1)):
         variant = THOROUGH_FIRST[kind] if (big and i == 0) else k['variants'][i]
-        members.append(_build_one(ctx, kind, variant, rational, 'ABC'[i], clamped=clamped))
+        # mixed: a container whose members alternate between rational and non-rational shapes
+        members.append(_build_one(ctx, kind, variant, (rational if i % 2 == 0 else not rational) if mixed else rational,
+                                  'ABC'[i], clamped=clamped))
     # the domain [U[p], U[n]] of each direction (== [0, 1] for the clamped family); the start point is its lower corner
     m0 = members[0]
     dom = [(m0['kvs'][a][m0['deg'][a]], m0['kvs'][a][m0['sizes'][a]]) for a in range(k['pd'])]
@@ -344,7 +355,12 @@ def affine_map(ctx, kind, rational, op, axis, inplace, count, big, clamped=True,
 
     # sampled points read BEFORE the transform (this fills the evaluated-point caches of the input)
     grid_before = None
-    if grid:
+    if grid == 'peek':
+        first = next(iter(obj))
+        ctx.check_true('peek.first_member', first is members[0]['obj'])
+        for g in obj:
+            break
+    elif grid:
         for sh in members:
             o = sh['obj']
             if sh['pd'] == 1:
@@ -364,8 +380,8 @@ def affine_map(ctx, kind, rational, op, axis, inplace, count, big, clamped=True,
                     sh['obj'].evaluate(start_u=q1, stop_u=q3, start_v=q1, stop_v=q3, start_w=q1, stop_w=q3)
         else:
             grid_before = [[list(p) for p in sh['obj'].evalpts] for sh in members]
-        if rational:
-            _ = [(sh['obj'].ctrlpts, sh['obj'].weights) for sh in members]
+        if rational or mixed:
+            _ = [(sh['obj'].ctrlpts, sh['obj'].weights) for sh in members if sh['W'] is not None]
 
     snap = _snap(vars(obj))
     if op == 'translate':
@@ -396,11 +412,11 @@ def affine_map(ctx, kind, rational, op, axis, inplace, count, big, clamped=True,
     eff_axis = 2 if dim == 2 else (2 if axis is None else axis)
     for i, sh in enumerate(members):
         r = res[i] if count else res
-        ctx.check_true('shape%d.type' % i, type(r) is type(sh['obj']) and r.rational is rational and r.dimension == dim)
+        ctx.check_true('shape%d.type' % i, type(r) is type(sh['obj']) and r.rational is (sh['W'] is not None) and r.dimension == dim)
         ctx.check_true('shape%d.degrees_sizes' % i, _degrees(sh, r) == list(sh['deg']) and _sizes(sh, r) == list(sh['sizes']))
         for a, (gk, U) in enumerate(zip(_knots(sh, r), sh['kvs'])):
             ctx.check_eq_vec('shape%d.knotvector%d_unchanged' % (i, a), gk, U)
-        if rational:
+        if sh['W'] is not None:
             ctx.check_eq_vec('shape%d.weights_unchanged' % i, r.weights, sh['W'])
         ctx.check_eq_vec('shape%d.point=tau(point)' % i, _at(sh, r, prm), _tau(op, arg, origin, before[i], eff_axis))
         if op == 'rotate' and i == 0:
@@ -416,8 +432,8 @@ def affine_map(ctx, kind, rational, op, axis, inplace, count, big, clamped=True,
     if not inplace:
         shared = _shared_containers(obj, res)
         ctx.check_true('copy.shares_nothing_with_input', not shared, 'shared: %s' % (shared[:4],))
-        if rational:
-            _ = [(sh['obj'].ctrlpts, sh['obj'].weights) for sh in members]       # read the input's views in between
+        if rational or mixed:
+            _ = [(sh['obj'].ctrlpts, sh['obj'].weights) for sh in members if sh['W'] is not None]       # read the input's views in between
         res2 = ops.scale(res, ctx.lit(2), inplace=True)
         for i, sh in enumerate(members):
             r = res2[i] if count else res2
